@@ -606,7 +606,7 @@ fn lab(inj: &str, legal: bool, class: &'static str) -> Option<Label> {
     Some(Label { inj: inj.to_string(), legal, class })
 }
 
-const N_INJ: u64 = 60;
+const N_INJ: u64 = 64;
 const OBJ_KINDS: [&str; 5] = ["anchor", "guideline", "contour", "point", "component"];
 const NUM_ATTRS: [(&str, &str); 22] = [
     ("advance", "width"), ("advance", "height"), ("anchor", "x"), ("anchor", "y"), ("guideline", "x"),
@@ -703,6 +703,70 @@ fn ensure(doc: &mut Vec<Node>, g: &mut Gen, kind: &str) -> Option<Path> {
 fn text_el(name: &str, t: &str) -> Node {
     el(name, vec![], vec![Node::Text(t.to_string())])
 }
+
+/// a name that is NOT the known name but looks like it: namespace-style prefixes (with or without a
+/// declaration on <glyph>), other letter case, a prefix or a suffix.  Returns the twin, the
+/// declaration attribute to put on the root (if any) and a description.
+fn twin(name: &str, rng: &mut Rng) -> (String, Option<&'static str>, &'static str) {
+    let cap = |s: &str| {
+        let mut c = s.chars();
+        match c.next() {
+            Some(f) => f.to_uppercase().collect::<String>() + c.as_str(),
+            None => String::new(),
+        }
+    };
+    match rng.below(11) {
+        0 => (format!("p:{}", name), None, "prefix p:, undeclared"),
+        1 => (format!("p:{}", name), Some("xmlns:p"), "prefix p:, declared"),
+        2 => (format!("ext:{}", name), None, "prefix ext:, undeclared"),
+        3 => (format!("ext:{}", name), Some("xmlns:ext"), "prefix ext:, declared"),
+        4 => (format!(":{}", name), None, "leading colon"),
+        5 => (cap(name), None, "capitalised"),
+        6 => (name.to_uppercase(), None, "upper case"),
+        7 => {
+            // another mixed case: lower-case a camelCase name, or raise the last letter
+            let l = name.to_lowercase();
+            if l != name {
+                (l, None, "lower case")
+            } else {
+                let n = name.len();
+                (format!("{}{}", &name[..n - 1], name[n - 1..].to_uppercase()), None, "last letter raised")
+            }
+        }
+        8 => (format!("{}2", name), None, "suffix"),
+        9 => (format!("a{}", name), None, "prefix letter"),
+        _ => (format!("{}:p", name), None, "known name used as the prefix"),
+    }
+}
+const ELEMENT_NAMES: [&str; 12] =
+    ["glyph", "advance", "unicode", "image", "guideline", "anchor", "outline", "lib", "note", "contour", "component", "point"];
+const KNOWN_ATTRS: [(&str, &[&str]); 9] = [
+    ("glyph", &["name", "format", "formatMinor"]),
+    ("advance", &["width", "height"]),
+    ("unicode", &["hex"]),
+    ("image", &["fileName", "xScale", "xyScale", "yxScale", "yScale", "xOffset", "yOffset", "color"]),
+    ("guideline", &["x", "y", "angle", "name", "color", "identifier"]),
+    ("anchor", &["x", "y", "name", "color", "identifier"]),
+    ("contour", &["identifier"]),
+    ("component", &["base", "xScale", "xyScale", "yxScale", "yScale", "xOffset", "yOffset", "identifier"]),
+    ("point", &["x", "y", "type", "smooth", "name", "identifier"]),
+];
+fn default_value(key: &str) -> &'static str {
+    match key {
+        "name" => "n",
+        "format" => "2",
+        "formatMinor" => "0",
+        "hex" => "41",
+        "fileName" => "a.png",
+        "color" => "1,0,0,1",
+        "identifier" => "twin-id",
+        "base" => "a",
+        "type" => "line",
+        "smooth" => "yes",
+        _ => "1",
+    }
+}
+const NS_URI: &str = "http://example.com/ns";
 
 fn inject(doc: &mut Vec<Node>, g: &mut Gen, which: u64) -> Option<Label> {
     let ri = root_index(doc);
@@ -1288,6 +1352,80 @@ fn inject(doc: &mut Vec<Node>, g: &mut Gen, which: u64) -> Option<Label> {
             insert_child(doc, &p, g.rng, Node::CData("x".into()));
             lab(&format!("CDATA inside {}", parent), false, "")
         }
+        // ---- look-alike names: prefixed, other case, affixed (all unknown to the reader)
+        55 => {
+            let kind = *g.rng.pick(&ELEMENT_NAMES);
+            let p = if kind == "glyph" { vec![ri] } else { ensure(doc, g, kind)? };
+            let (nn, decl, what) = twin(kind, g.rng);
+            match node_mut(doc, &p) {
+                Node::Empty(n, _) | Node::Elem(n, _, _) => *n = nn.clone(),
+                _ => return None,
+            }
+            if let Some(d) = decl {
+                set_attr(&mut doc[ri], d, NS_URI, g.rng);
+            }
+            lab(&format!("element {} written {} ({})", kind, nn, what), false, "")
+        }
+        56 => {
+            let (kind, keys) = *g.rng.pick(&KNOWN_ATTRS);
+            let key = *g.rng.pick(keys);
+            let p = if kind == "glyph" { vec![ri] } else { ensure(doc, g, kind)? };
+            let (nk, decl, what) = twin(key, g.rng);
+            let rename = g.rng.chance(1, 2);
+            let n = node_mut(doc, &p);
+            let a = n.attrs_mut().unwrap();
+            let how = match a.iter_mut().find(|e| e.0 == key) {
+                Some(e) if rename => {
+                    e.0 = nk.clone();
+                    "in place of"
+                }
+                Some(e) => {
+                    let v = e.1.clone();
+                    set_attr(n, &nk, &v, g.rng);
+                    "next to"
+                }
+                None => {
+                    set_attr(n, &nk, default_value(key), g.rng);
+                    "without"
+                }
+            };
+            if let Some(d) = decl {
+                set_attr(&mut doc[ri], d, NS_URI, g.rng);
+            }
+            lab(&format!("{} attribute {} {} {} ({})", kind, nk, how, key, what), false, "")
+        }
+        57 => {
+            // a namespace declaration alone is an unknown attribute
+            let kind = *g.rng.pick(&ELEMENT_NAMES);
+            let p = if kind == "glyph" { vec![ri] } else { ensure(doc, g, kind)? };
+            let k = *g.rng.pick(&["xmlns", "xmlns:p", "xml:lang", "xml:space"]);
+            set_attr(node_mut(doc, &p), k, if k.starts_with("xmlns") { NS_URI } else { "preserve" }, g.rng);
+            lab(&format!("{} on {}", k, kind), false, "")
+        }
+        58 => {
+            // an extra prefixed twin of a known child, next to the real children
+            let (parent, n) = match g.rng.below(4) {
+                0 => ("contour", em("point", vec![at("x", "10"), at("y", "10"), at("type", "line")])),
+                1 => ("outline", em("component", vec![at("base", "a")])),
+                2 => ("outline", el("contour", vec![], vec![em("point", vec![at("x", "1"), at("y", "1"), at("type", "move"), at("name", "top")])])),
+                _ => ("glyph", em("unicode", vec![at("hex", "41")])),
+            };
+            let p = if parent == "glyph" { vec![ri] } else { ensure(doc, g, parent)? };
+            let mut n = n;
+            let known = n.name().unwrap().to_string();
+            let (nn, decl, what) = twin(&known, g.rng);
+            match &mut n {
+                Node::Empty(x, _) | Node::Elem(x, _, _) => *x = nn.clone(),
+                _ => {}
+            }
+            // at the end, so that a contour stays a legal sequence if the twin were read as a point
+            let k = node_mut(doc, &p).kids_mut()?;
+            k.push(n);
+            if let Some(d) = decl {
+                set_attr(&mut doc[ri], d, NS_URI, g.rng);
+            }
+            lab(&format!("extra {} inside {} ({})", nn, parent, what), false, "")
+        }
         _ => lab("none", true, ""),
     }
 }
@@ -1431,7 +1569,16 @@ pub fn main(a: &Args) {
         let mut r2 = rng.fork();
         let mut g = Gen { rng: &mut r2, ver, next_id: 0, ids: vec![] };
         let mut doc = g.doc();
-        let which = if i % 7 == 0 { 0 } else { 1 + g.rng.below(N_INJ - 6) };
+        // 1..=58, the look-alike names (55, 56) three times as often as the others
+        let which = if i % 7 == 0 {
+            0
+        } else {
+            match 1 + g.rng.below(N_INJ - 2) {
+                59 | 60 => 55,
+                61 | 62 => 56,
+                w => w,
+            }
+        };
         let label = match inject(&mut doc, &mut g, which) {
             Some(l) => l,
             None => continue,
